@@ -66,7 +66,9 @@ func root(b []byte, tag uint32) (*ber.Node, error) { return rootOpt(b, tag, ber.
 // interindustry tags 5F01..5F1E use the two-octet form for tag numbers below
 // 31 (not the shortest form of X.690 8.1.2.2): identifier octets are taken as
 // they stand.
-func rootLDS(b []byte, tag uint32) (*ber.Node, error) { return rootOpt(b, tag, ber.Options{Lenient: true}) }
+func rootLDS(b []byte, tag uint32) (*ber.Node, error) {
+	return rootOpt(b, tag, ber.Options{Lenient: true})
+}
 
 func rootOpt(b []byte, tag uint32, o ber.Options) (*ber.Node, error) {
 	nodes, err := ber.Parse(b, o)
